@@ -1,3 +1,11 @@
 chk("C19", "runtime monitor: reference-model (insertion-ordered dict) comparison after every operation, exhaustive short operation sequences + random long ones",
     "Every operation sequence up to the bound is executed on the real containers and compared, after each step, with a reference dict: Len, Has/Get/GetValue, Each/EachSafe order, Filter visiting order, Find result, MarshalJSON validity/key order/entry count. Exhaustive over a 19-operation alphabet up to length 4 (quick) / 5 (thorough); random beyond. Held = no disagreement on the executions run.",
     "Trusts the 40-line reference dict and encoding/json as JSON validator; sequential use only (concurrent use is C11).")
+
+chk("C20", "runtime monitor: exhaustive table comparison against documented vocabulary + repeated-execution determinism and cross-classifier agreement over enumerated literals",
+    "All 18x18 type pairs and every documented name/near-miss are checked against tables typed in from the documentation; every enumerated JSON scalar literal (exhaustive small scope + random) is guessed 24 times on fresh state and compared with the schema scanner's own classifier. Held = no disagreement on the executions run.",
+    "Trusts the hand-typed documented tables, encoding/json.Valid for literal membership; map-order dependence is sampled by repetition, not enumerated.")
+
+chk("C13", "runtime monitor: differential oracle (RFC 8259 number regex + exact decimal arithmetic cross-checked with math/big.Rat) over exhaustive short strings, exhaustive small-scope pairs and random long numbers",
+    "NewNumber's accept/reject decision, String(), LengthOfFractionalPart() and all six comparison methods are compared with an exact reference on every string up to the length bound, every ordered pair of short grammatical numbers, and millions of random long numbers incl. equal-by-shift and last-digit-neighbour pairs. Held = no disagreement on the executions run.",
+    "Trusts Go regexp, the 100-line exact decimal reference and math/big; exponents beyond 3000 only probed at fixed points.")
